@@ -4,6 +4,8 @@
 From Bita Require Import Model.Base Gen.Generated Model.Chunker Model.Proto Model.Archive Model.Compress.
 From Bita Require Import Model.CloneOutput Model.CloneArchive.
 From Bita Require Import Proofs.ChunkerRefine Proofs.ProtoRoundTrip Proofs.CompressConform Proofs.RoundTrip.
+From Bita Require Import Model.HttpReader Model.CloneBytes Model.CloneHttpModel.
+From Bita Require Import Proofs.CloneBytesCorrect Proofs.CloneHttp Proofs.CloneHttpSafe.
 
 (* For every source, every valid configuration / hash length 1..64 / none or brotli compression / metadata,
    with [H] any 64-byte hash that does not collide (after truncation) on the chunks of this source and a
@@ -43,6 +45,22 @@ Theorem C01_input_delivery_irrelevant : forall cfg data evs,
   chunk_stream cfg data evs = chunk_oneshot cfg data.
 Proof. exact chunk_stream_schedule_independent. Qed.
 
+(* ... and over HTTP: the same archive cloned through the HTTP reader model from a server that answers every request
+   yields the source with exactly three requests: the pre-header, the rest of the header, all chunk data *)
+Theorem C01_roundtrip_over_http :
+  forall (H comp : list N -> list N) (decomp : N -> list N -> option (list N)),
+    (forall x, lenN (H x) = 64) -> (forall x, Forall (fun b => b < 256) (H x)) ->
+    forall src o bytes retries,
+      opts_ok o -> bytes_ok src -> lenN src < 18446744073709551616 -> lenN bytes < 18446744073709551616 ->
+      codec_ok comp decomp o -> few_chunks o src ->
+      no_collision H o src [] false [] -> stored_nonempty comp o src -> compress_model H comp src o = Ok bytes ->
+      exists a, try_init H (file_read_at bytes) = Ok a
+        /\ http_clone H decomp bytes retries []
+           = (Ok src, [(0, 14); (14, a_header_size a - 14)]
+                      ++ match src with [] => [] | _ :: _ => [(a_data_offset a, lenN bytes - a_data_offset a)] end).
+Proof. exact http_clone_reliable_server. Qed.
+
 Print Assumptions C01_roundtrip.
 Print Assumptions C01_archive_records_source.
 Print Assumptions C01_input_delivery_irrelevant.
+Print Assumptions C01_roundtrip_over_http.
